@@ -586,7 +586,7 @@ FAMILIES = [
            describe=lambda c: f"{c['kind']},{'wt' if c['wt'] else 'wb'},{c['style']}"),
 ]
 
-PROOF_FILES = ["C16/Model.v", "C16/Lists.v", "C16/Policies.v", "C16/Store.v", "C16/Races.v", "C16/Props.v"]
+PROOF_FILES = ["C16/Model.v", "C16/Lists.v", "C16/Policies.v", "C16/Store.v", "C16/Races.v", "C16/Seq.v", "C16/Props.v"]
 
 TRUSTED = [
     "Coq 8.16.1 kernel (coqc, vm_compute for refutation witnesses and case evaluation); no native_compute",
